@@ -3,6 +3,7 @@ import FlatccModel.Num
 import FlatccModel.ScanSwap
 import FlatccModel.Refmap
 import FlatccModel.Reader
+import FlatccModel.Ident
 /-! `fmodel`: executes the model's definitions on protocol lines (stdin → stdout, one result line per op line). -/
 open Flatcc Flatcc.Util
 
@@ -205,10 +206,30 @@ def stepS (st : DrvState) (line : String) : DrvState × String :=
     | "verify" :: args => (st, verifyOp st.schema args)
     | _ => (st, "")
 
+def identOp (args : List String) : String :=
+  open Flatcc.Ident Flatcc.Verifier in
+  match args with
+  | ["hash", hex] => toString (typeHashFromName (hexToBytes hex))
+  | ["chash", scope, name] =>
+    let sc := if scope == "-" then [] else (scope.splitOn ".").map hexToBytes
+    toString (compileTypeHash sc (hexToBytes name))
+  | ["fromstr", hex] => toString (hashFromString (hexToBytes hex ++ [0, 0, 0, 0]))
+  | ["id2hash", hex] => toString (hashFromIdentifier (hexToBytes hex))
+  | ["hash2id", h] => bytesToHex (identifierFromHash (natArg h))
+  | ["has", fid, stored] =>
+    if hasIdentifier (natArg stored) (if fid == "null" then none else some (hexToBytes fid)) then "1" else "0"
+  | ["hastype", th, stored] => if hasTypeHash (natArg stored) (natArg th) then "1" else "0"
+  | ["stored", fid, _ws] =>
+    match storedIdentifier (if fid == "null" then none else some (hexToBytes fid)) with
+    | none => "none"
+    | some s => "id " ++ bytesToHex s
+  | _ => "bad-op"
+
 def step (line : String) : String :=
   match line.trimAscii.toString.splitOn " " with
   | "num" :: args => numOp args
   | "refmap" :: args => refmapOp args
+  | "ident" :: args => identOp args
   | "sort" :: args => sortOp ("sort" :: args)
   | "find" :: args => sortOp ("find" :: args)
   | "findn" :: args => sortOp ("findn" :: args)
